@@ -660,3 +660,27 @@ Proof.
   intros _ _. unfold head. destruct (n <? 24); [reflexivity|]. destruct (n <? 256); [reflexivity|].
   destruct (n <? 65536); [reflexivity|]. destruct (n <? 4294967296); reflexivity.
 Qed.
+
+(* ---------------------------------------------------------------- the limits are monotone in the depth *)
+Lemma fits_mono it : forall d c, fits (S d) c it = true -> fits d c it = true.
+Proof.
+  induction it as [n|n|b|b|l IH|l IH|t x IH|n|ai bits] using item_ind'; intros d c F; cbn [fits] in *; try exact F.
+  - apply andb_true_iff in F. destruct F as [F Fl]. apply andb_true_iff in F. destruct F as [Fd Fn].
+    rewrite Fn. replace (Nat.leb (S d) max_nested) with true by (symmetry; apply Nat.leb_le; apply Nat.leb_le in Fd; lia). cbn [andb].
+    rewrite forallb_forall in *. rewrite Forall_forall in IH. intros x Hx. apply IH; [exact Hx|]. now apply Fl.
+  - apply andb_true_iff in F. destruct F as [F Fl]. apply andb_true_iff in F. destruct F as [Fd Fn].
+    rewrite Fn. replace (Nat.leb (S d) max_nested) with true by (symmetry; apply Nat.leb_le; apply Nat.leb_le in Fd; lia). cbn [andb].
+    rewrite forallb_forall in *. rewrite Forall_forall in IH. intros x Hx. specialize (Fl x Hx). apply andb_true_iff in Fl. destruct (IH x Hx) as [I1 I2].
+    rewrite I1, I2; tauto.
+  - apply andb_true_iff in F. destruct F as [Ft F]. apply andb_true_iff in F. destruct F as [Fd Fx]. rewrite Ft. cbn [andb].
+    destruct c.
+    + replace (Nat.leb (S d) max_nested) with true by (symmetry; apply Nat.leb_le; apply Nat.leb_le in Fd; lia). cbn [andb]. now apply IH.
+    + replace (Nat.leb d max_nested) with true by (symmetry; apply Nat.leb_le; apply Nat.leb_le in Fd; lia). cbn [andb]. now apply IH.
+Qed.
+
+Lemma fits_chain it : forall d, fits d true it = true -> fits d false it = true.
+Proof.
+  destruct it; intros d F; cbn [fits] in *; try exact F.
+  apply andb_true_iff in F. destruct F as [Ft F]. apply andb_true_iff in F. destruct F as [Fd Fx]. rewrite Ft. cbn [andb].
+  replace (Nat.leb d max_nested) with true by (symmetry; apply Nat.leb_le; apply Nat.leb_le in Fd; lia). cbn [andb]. now apply fits_mono.
+Qed.
